@@ -19,10 +19,13 @@ def bump(res, k, n=1):
     res['out'][k] = res['out'].get(k, 0) + n
 
 
+_SALT = b''
+
+
 def stamp(off):
     # bytes 0-7 are 0xEE: byte 5 (entry count field when taken as a catalogue sector) is not a multiple of 8,
     # so a stamped sector is never a valid catalogue; bytes 8-15 carry the file offset
-    h = hashlib.blake2b(struct.pack('>Q', off), digest_size=30).digest()
+    h = hashlib.blake2b(struct.pack('>Q', off) + _SALT, digest_size=30).digest()
     return b'\xEE' * 8 + struct.pack('>Q', off) + (h * 8)
 
 
@@ -229,6 +232,66 @@ def w_container(case):
     return res
 
 
+def w_multi(case):
+    """several image files attached in one invocation (default physical allocation: the first at 0(,2), the second at 1(,3),
+    a third one-sided one at 4): every sector of every surface of every image by a whole-surface read, dump-sector on boundary
+    tracks.  Each image's sectors are stamped with their offset AND an image-specific salt."""
+    global _SALT
+    res = mkres()
+    try:
+        d = run.fresh_dir('c04m')
+        imgs = case['images']
+        argv = []
+        drives = []
+        base = [0, 1, 4]
+        for k, im in enumerate(imgs):
+            _SALT = b'img%d' % k
+            fname = 'img%d.%s' % (k, im['container'])
+            info = build_file(im, os.path.join(d, fname))
+            argv += ['--file', fname]
+            drives.append([(base[k] + 2 * i['surface'], i) for i in info])
+        sig = 'C04:multi:' + '+'.join('%s%d' % (im['container'], im['spt']) for im in imgs)
+        for k, im in enumerate(imgs):
+            _SALT = b'img%d' % k
+            cont, nt, spt = im['container'], im['ntracks'], im['spt']
+            note = 'image %d of %s (%s %dx%d)' % (k, [x['container'] + str(x['spt']) for x in imgs], cont, nt, spt)
+            for drive, i in drives[k]:
+                surf = i['surface']
+                r = dfsrun.dfs(BIN, argv + ['type', '--binary', ':%d.$.%s' % (drive, i['name'])], d)
+                res['n'] += 1
+                if r.status() != 'exit0':
+                    res['viol'].append(('%s:unreadable' % sig, '%s: type of the all-sectors file on drive %d failed: %r' % (note, drive, r.err[:160])))
+                    continue
+                n = check_stream(res, sig, note, r.out, cont, nt, spt, surf, i['first'])
+                if n != i['count']:
+                    res['viol'].append((sig + ':short', '%s: %d sectors delivered, %d expected' % (note, n, i['count'])))
+                for t in sorted(set([0, 1, nt // 2, nt - 1])):
+                    for sct in sorted(set([0, 1, spt // 2, spt - 1])):
+                        if t * spt + sct < 2:
+                            continue
+                        rr = dfsrun.dfs(BIN, argv + ['dump-sector', str(drive), str(t), str(sct)], d)
+                        res['n'] += 1
+                        if rr.status() != 'exit0':
+                            res['viol'].append((sig + ':dump-sector:failed', '%s drive %d track %d sector %d: %r' % (note, drive, t, sct, rr.err[:100])))
+                            continue
+                        try:
+                            got, _ = render.parse_dump(rr.out)
+                        except render.ParseError as ex:
+                            res['viol'].append((sig + ':dump-sector:parse', str(ex)))
+                            continue
+                        check_stream(res, sig + ':dump-sector', note, got, cont, nt, spt, surf, t * spt + sct)
+        res['nt'].append(('multi', repr(imgs)))
+        if res['viol']:
+            res['case'] = case
+    except Exception:
+        import traceback
+        res['viol'].append(('HARNESS', traceback.format_exc()))
+        res['case'] = case
+    finally:
+        _SALT = b''
+    return res
+
+
 def w_mmb(case):
     res = mkres()
     try:
@@ -305,7 +368,7 @@ def w_mmb(case):
 
 
 def worker(case):
-    return {'container': w_container, 'mmb': w_mmb}[case['w']](case)
+    return {'container': w_container, 'mmb': w_mmb, 'multi': w_multi}[case['w']](case)
 
 
 def geometries(cont):
@@ -333,6 +396,25 @@ def fam_twosided(tier):
     for cont, geos in (('ssd', [(35, 10), (40, 10), (80, 10)]), ('sdd', [(35, 18), (40, 18), (80, 18)])):
         for nt, spt in geos:
             yield {'w': 'container', 'container': cont, 'ntracks': nt, 'spt': spt, 'kind': 'acorn', 'surfaces': 2}
+
+
+MULTI = [('ssd', 80, 10, 1), ('ssd', 40, 10, 1), ('dsd', 80, 10, 2), ('dsd', 40, 10, 2), ('ddd', 80, 18, 2), ('ddd', 40, 18, 2), ('ddd', 80, 16, 2),
+         ('sdd', 80, 18, 1), ('sdd', 40, 18, 1)]
+
+
+def fam_multi(tier):
+    """every ordered pair of sector-dump images (ssd/dsd/sdd/ddd, 40/80 tracks, 10/16/18 sectors) attached in ONE invocation, and triples of
+    interleaved images followed by an .ssd: per-image state (stride, track length, side offset) must not leak from one image to the next"""
+    def im(x):
+        return {'container': x[0], 'ntracks': x[1], 'spt': x[2], 'kind': 'acorn', 'surfaces': x[3]}
+    for a in MULTI:
+        for b in MULTI:
+            yield {'w': 'multi', 'images': [im(a), im(b)]}
+    inter = [x for x in MULTI if x[3] == 2]
+    for a in inter:
+        for b in inter:
+            if a != b:
+                yield {'w': 'multi', 'images': [im(a), im(b), im(MULTI[0])]}
 
 
 def fam_trunc(tier):
@@ -375,7 +457,7 @@ def fam_mmb(tier):
 
 
 FAMILIES = [('K-containers-geometries', fam_containers), ('T-truncated-files', fam_trunc), ('P-partly-stored-last-sector', fam_partial), ('M-mmb-slots-status', fam_mmb),
-            ('N-two-sided-non-interleaved', fam_twosided)]
+            ('N-two-sided-non-interleaved', fam_twosided), ('U-several-images-one-invocation', fam_multi)]
 
 
 def main(tier, seed):
